@@ -382,6 +382,7 @@ def generate(seed, tier):
         P, F, E = stationary_tables(rng, n, T)
         ops = stage(n, P, F, E) + ["build r resc 1", "build g log 1"]
         last = None     # (order, variable) of the last derivative asked: asked again right after an update
+        cur_b = []
         for _ in range(rng.randint(4, 12)):
             u = rng.random()
             var = "e%d_%d" % (rng.randrange(T), rng.randrange(n))
@@ -389,6 +390,12 @@ def generate(seed, tier):
                 dd = rng.choice(["d1", "d2"])
                 ops += ["%s r %s" % (dd, var), "%s g %s" % (dd, var)]
                 last = (dd, var)
+                if rng.random() < 0.5:
+                    # per-site terms of the derivative just asked (the accessors have no variable argument)
+                    acc = "dsite" if dd == "d1" or rng.random() < 0.3 else "d2site"
+                    for _k in range(rng.randint(1, 3)):
+                        ops.append("%s r %d" % (acc, edge_site(rng, T, cur_b)))
+                        ops.append("%s g %d" % (acc, edge_site(rng, T, cur_b)))
             elif u < 0.62:
                 o = rng.choice(["r", "g"])
                 ops += ["d2 %s %s" % (o, var), "d1 %s %s" % (o, var)]
@@ -398,7 +405,8 @@ def generate(seed, tier):
                     v = h(10.0 ** (-rng.uniform(0, 3)))
                     ops += ["setp r %s %s" % (var, v), "setp g %s %s" % (var, v)]
                 else:
-                    bs = " ".join(map(str, rand_breaks(rng, T)))
+                    cur_b = rand_breaks(rng, T)
+                    bs = " ".join(map(str, cur_b))
                     ops += ["brk r " + bs, "brk g " + bs]
                 if last and rng.random() < 0.8:
                     ops += ["%s r %s" % last, "%s g %s" % last]
